@@ -5,6 +5,7 @@ open HydroVerif HydroVerif.C07
 /-
 requests (floats as 16 hex digits, rationals as p/q):
   rowcol nrows ncols [cells]                    -> [r,c;r,c;...]
+  getnxy ncols [cells]                          -> [col,row;...]   (raw helper, any sign; ncols=0 -> err:div0)
   nb nrows ncols [cells]                        -> ok:[9 ints] | err:badCell , separated by ';'
   c2c nrows ncols xll yll csz [cells]           -> [x,y;...]  (nan,nan for an invalid cell)
   xy2c nrows ncols xll yll csz [x,y;...]        -> [cells]
@@ -42,6 +43,12 @@ def handle (toks : List String) : String :=
     | some nr, some nc, some cs =>
       fmtPairs (cs.map fun c => let rc := cell2rowcol nr nc c; (toString rc.1, toString rc.2))
     | _, _, _ => "bad-op"
+  | ["getnxy", nc, cells] =>
+    match nc.toInt?, parseIntList? cells with
+    | some nc, some cs =>
+      if nc = 0 then "err:div0"
+      else fmtPairs (cs.map fun c => let p := getnxy nc c; (toString p.1, toString p.2))
+    | _, _ => "bad-op"
   | ["nb", nr, nc, cells] =>
     match nr.toInt?, nc.toInt?, parseIntList? cells with
     | some nr, some nc, some cs =>
